@@ -43,6 +43,7 @@ func (t *treeList) Len() int {
 func (t *treeList) Insert(v Value) {
 	if t.root == nil {
 		t.root = &treeNode{parent: nil, left: nil, right: nil, v: v}
+		t.length++
 	} else {
 		node := t.root
 	loop:
